@@ -287,6 +287,11 @@ def set_keys(s):
     return tuple(x.serialize() if hasattr(x, 'serialize') else x for x in s)
 
 
+def set_has(s, x):
+    """membership of the key x (bytes) in the set s, stated like the interpreter's own membership test"""
+    return any((e.serialize() if hasattr(e, 'serialize') else e) == x for e in s)
+
+
 def seq_contains(t, x):
     return x in tuple(t)
 
